@@ -297,10 +297,15 @@ def c2m_stage(chk, model, quick):
         chk.dist('c2m_aggregates_per_prototype', min(sum(1 for a in p['args'] if a.startswith('blk')), 6))
         if bad:
             found.setdefault((d, 'interp' if e == 'interp' else 'gen', G.proto_sig(p)), (d, k, p, vals, rets, e, bad, m))
-    chk.cov['c2m_stage'] = ('%d prototypes with by-value aggregates (C structs of every psABI class; %d aimed at the fit test of '
-                            'aggregate arguments, the rest generated) compiled by c2mir inside the harness x {interp, gen -O0..-O3}: '
+    nshape = sum(1 for _, p, _, _ in items if p.get('cty') or p.get('rcty'))
+    for _, p, _, _ in items:
+        chk.dist('c2m_aggregate_types', 'C type trees (nested struct/union/array members sharing eightbytes)' if p.get('cty') or p.get('rcty')
+                 else 'one flat struct per class')
+    chk.cov['c2m_stage'] = ('%d prototypes with by-value aggregates (C structs of every psABI class; %d core: fit test of aggregate '
+                            'arguments + every aimed nested shape of gen_c05_ctypes.aimed_shapes, the rest generated; %d pass/return '
+                            'aggregates given as C type trees) compiled by c2mir inside the harness x {interp, gen -O0..-O3}: '
                             'c2m caller -> assembly probe (SysV model image), c2m caller -> gcc callee, gcc caller -> c2m callee'
-                            % (len(items), ncore))
+                            % (len(items), ncore, nshape))
     return [found[k] for k in sorted(found)]
 
 
